@@ -155,14 +155,21 @@ class EndToEnd(NativeCase):
         optsets = OPTSETS_Q if tier == 'quick' else OPTSETS_T
         n_states = 12 if tier == 'quick' else 48
         blocks = list(corpus.BASE_BLOCKS) + list(EDGE_BLOCKS)
-        shapes = corpus.rule_shape_blocks(1 if tier == 'quick' else 2)
+        # deterministic pseudo-random blocks (arithmetic / stack / memory / storage mixed); run under the first option sets only
+        fuzz = corpus.random_blocks(60 if tier == 'quick' else 1200, seed=17) + corpus.random_blocks(40 if tier == 'quick' else 800, seed=18, profile='memory')
+        shapes = corpus.rule_shape_blocks(1 if tier == 'quick' else 2) + fuzz
         changed = 0
         shapes_set = set(shapes)
         for b in blocks + shapes:
             toks = corpus.tokens(b)
             text = pipeline.plain_text(toks)
             items_in = evmexec.parse_plain(toks)
-            depth = utils.compute_stack_size(plain_names(toks))
+            try:
+                depth = utils.compute_stack_size(plain_names(toks))
+            except Exception:
+                continue
+            if depth > 24:
+                continue
             for opts in (optsets if b not in shapes_set else optsets[:2]):
                 inp = dict(block=text, opts=list(opts))
                 r = pipeline.run_cli(text, opts, timeout=30)
